@@ -129,4 +129,38 @@ PLAN = {
         min_nontrivial=dict(quick=300, thorough=3000),
         runs=[dict(variant="", flavour="asan", quick=dict(cases=5000, size=100, shards=16, budget=40), thorough=dict(cases=150000, size=150, shards=16, budget=900))],
     ),
+    "C10": dict(
+        rule=("an independent grammar-driven emitter (harness/qsx_io.cpp, shares no code with the library's writers) turns a known "
+              "rational model into LP or MPS text, drawing every lexical and layout alternative from the tape: keyword spellings and "
+              "case, named/unnamed objective and rows, literals as integers / leading zeros / decimals / leading or trailing dot / "
+              "exponent forms / reduced and unreduced fractions, omitted 1, separated signs, repeated terms that add up, line breaks "
+              "between tokens, blank lines, comments, all bound forms, +-inf spellings, negative-upper rule, INTEGER section; MPS: "
+              "OBJSENSE/OBJNAME, two entries per line, MARKER lines, RANGES on L/G/E of either sign, set names, UP/LO/FX/FR/MI/PL/BV/"
+              "LI/UI. Each literal is constructed to denote a known rational exactly. Oracle: dump(read(text)) must equal the model "
+              "(columns by name, rows by name or content, row intervals, every number as a rational). Non-trivial = text using >=3 "
+              "feature classes; distinct = distinct text."),
+        technique="grammar-based generation with known denotation (print side of a parser) + exact comparison",
+        min_nontrivial=dict(quick=2000, thorough=20000),
+        runs=both("lp", dict(cases=20000, size=100, budget=30), dict(cases=600000, size=150, budget=600), 4, 4) +
+             both("mps", dict(cases=20000, size=100, budget=30), dict(cases=600000, size=150, budget=600), 4, 4),
+    ),
+    "C08": dict(
+        rule=("models satisfying the precondition (every column used, >=1 non-empty row) with all senses incl. ranges of width 0 and "
+              ">0, every bound shape, integer marks (source problem read from harness MPS text), huge rationals, rows long enough to "
+              "wrap, awkward names (leading digit, blanks, illegal characters, keywords, clashes with generated names), an extra empty "
+              "row; built through the API or from text; written by QSwrite_prob to plain/.gz/.bz2/FILE*, read back, compared under the "
+              "statement's equivalences (match by name through the writer's rename notices, ranged row = G+L halves, empty rows "
+              "dropped, every number identical). Follow-ups: second generation write/read, both problems solved, LP->MPS->LP chain. "
+              "Non-trivial = model with a ranged row, non-default bound, fraction or long row."),
+        technique="round-trip PBT with name-matched exact comparison",
+        min_nontrivial=dict(quick=1000, thorough=10000),
+        runs=both("", dict(cases=12000, size=100, budget=40), dict(cases=300000, size=150, budget=900)),
+    ),
+    "C09": dict(
+        rule=("as C08 for the MPS writer/reader (blank-free awkward names), RANGES must come back natively (same interval as an R "
+              "row); follow-ups: second generation, solve, MPS->LP->MPS chain. Non-trivial as C08."),
+        technique="round-trip PBT with name-matched exact comparison",
+        min_nontrivial=dict(quick=1000, thorough=10000),
+        runs=both("", dict(cases=12000, size=100, budget=40), dict(cases=300000, size=150, budget=900)),
+    ),
 }
